@@ -281,6 +281,7 @@ def for_to_while(sh, lp, ordinal, inv_text, body_prefix):
             i, label, i, base_m, inv_text, pat, base_m, i, i, body_prefix)
     rev = False
     enum = False
+    pre = ''
     e = expr
     mm = re.match(r'^(.*)\.iter\(\)\.rev\(\)$', e, re.S)
     if mm:
@@ -297,6 +298,11 @@ def for_to_while(sh, lp, ordinal, inv_text, body_prefix):
                 base = e
             elif re.match(r'^[A-Za-z_][A-Za-z0-9_.]*$', e):
                 base = e          # a plain place expression: must already be a reference to a slice / Vec (type-checked by `: &[_]`)
+            elif re.match(r'^[A-Za-z_][A-Za-z0-9_.]*\(\)$', e):
+                # a call without arguments yielding an owned collection (the stub's return type is a Vec): bind it, iterate by reference
+                owned = '__o%d' % ordinal
+                pre = 'let %s = %s; ' % (owned, e)
+                base = '&' + owned
             else:
                 raise ExtractError('R7: unsupported iteration expression %r' % expr)
     label = t[lp['start']:lp['kw_idx']]
@@ -312,7 +318,7 @@ def for_to_while(sh, lp, ordinal, inv_text, body_prefix):
     else:
         head = 'let %s: &[_] = %s; let mut %s: usize = 0; %swhile %s < %s.len() %s { let %s = &%s[%s]; %s += 1; %s' % (
             s, base, i, label, i, s, inv_text, pat, s, i, i, body_prefix)
-    return head
+    return pre + head
 
 
 def _paren(e):
@@ -593,6 +599,15 @@ def transform_fn(text, spec):
         for mm in re.finditer(r'(?<![A-Za-z0-9_:])%s(?![A-Za-z0-9_])' % re.escape(src), m):
             if sh.bopen < mm.start() < sh.bclose or sh.popen < mm.start() < sh.bopen:
                 edits.append((mm.start(), mm.end(), dst))
+
+    # R11 exact textual rewrites (inside the body only); an absent source text is a lost anchor
+    for frm, to in spec.get('rewrites', []):
+        pos = t.find(frm, sh.bopen)
+        if pos < 0 or pos > sh.bclose:
+            raise ExtractError('R11: text to rewrite not found: %s' % frm)
+        while 0 <= pos < sh.bclose:
+            edits.append((pos, pos + len(frm), to))
+            pos = t.find(frm, pos + len(frm))
 
     # R10
     if 'R10' in rules:
